@@ -17,11 +17,12 @@ def main():
     # catch_matrix.py 1 --part 0/2   evaluates every second change (for running two workers side by side, each with its own output file)
     part = next((a for a in sys.argv[1:] if '/' in a), None)
     only = None
+    flt = next((a[7:] for a in sys.argv[1:] if a.startswith('--only=')), None)      # only changes whose name contains this
     if part:
         k, n = [int(x) for x in part.split('/')]
         names = sorted(os.path.basename(d) for d in glob.glob(os.path.join(VERIF, 'seeded', 'C*-*')))
         only = set(names[k::n])
-    out_path = os.path.join(VERIF, 'seeded', 'catch_matrix.json' if not part else 'catch_matrix.part%d.json' % k)
+    out_path = os.path.join(VERIF, 'seeded', 'catch_matrix.json' if not (part or flt) else ('catch_matrix.part%d.json' % k if part else 'catch_matrix.%s.json' % flt.strip('_')))
     matrix = json.load(open(out_path)) if os.path.exists(out_path) else {}
     part_ = part
     for d in sorted(glob.glob(os.path.join(VERIF, 'seeded', 'C*-*'))):
@@ -32,6 +33,7 @@ def main():
         if meta.get('obsolete'):
             matrix.setdefault(name, {})['obsolete'] = meta['obsolete']; continue
         if only and name not in only: continue
+        if flt and flt not in name: continue
         scratch = tempfile.mkdtemp(prefix='hepmc_cm_')
         try:
             sh('git -C /repo archive HEAD | tar -x -C %s' % scratch)
